@@ -1,5 +1,5 @@
 """guarded_by declarations for C15 (GeoNetworking router, location table) and C16 (LDM)."""
-from pyvc.lockcheck import LockSpec
+from pyvc.lockcheck import LockSpec, IdentitySpec
 
 RT = "flexstack.geonet.router:Router"
 LT = "flexstack.geonet.location_table"
@@ -17,4 +17,6 @@ LOCKSPECS = [
     LockSpec(f"{L}.dictionary_database:DictionaryDataBase", {"database": "_lock", "_next_id": "_lock"}, props=["C16"]),
     LockSpec(f"{L}.ldm_service:LDMService", {"data_provider_its_aid": "_lock", "data_consumer_its_aid": "_lock",
                                             "subscriptions": "_lock", "last_checked_subscriptions_time": "_lock"}, props=["C16"]),
+    IdentitySpec(f"{L}.ldm_classes:SubscribeDataobjectsReq", props=["C14"],
+                 note="the subscription identifier is hash(SubscribeDataobjectsReq): hash() is modelled as an uninterpreted function of ALL fields, which is only right while every field takes part in the generated __hash__ and __eq__"),
 ]
